@@ -159,9 +159,14 @@ def run(ctx):
                 x = x[1]
             if x[0] == "call" and "as_ref" in str(x[1]) and DESC in str(x[1]):
                 g3 = len(sites) == 1 and x[2][0] == N(B.tb.call_value(sites[0][1], sites[0][0]))
-            if x[0] in ("ref", "deref") and len(sites) == 1:
-                inner = x[1] if x[0] == "ref" else x
-                g3 = True
+            if len(sites) == 1:
+                # `&*ptr` / `ptr.as_ref().unwrap()`: the reference is the pointer formed at the one pointer-arithmetic site
+                # (its pointee type is fixed by the item type &EFIMemoryDesc)
+                ptr_t = N(B.tb.call_value(sites[0][1], sites[0][0]))
+                y = x
+                while y[0] in ("ref", "deref") and y != ptr_t:
+                    y = y[1]
+                g3 = g3 or y == ptr_t
         ctx.check(g3, "S2", "reference", "the yielded item is the EFIMemoryDesc reference at that pointer", B.site(), how=G.show(somes[0].val)[:200] if somes else "",
                   why=G.show(somes[0].val)[:300] if somes else "no Some exit")
         # writes
